@@ -1,6 +1,6 @@
 (* C06 — requests are authenticated and users are isolated from each other.
    Statements only; proofs are `exact` of lemmas in TowerProofs.v / TowerStable.v. *)
-From TeosModel Require Import Base TxIndex Tower TowerProofs.
+From TeosModel Require Import Base TxIndex Tower TowerProofs TowerIso.
 Local Open Scope N_scope.
 
 (* A request passes the gate only when its signature recovers to a registered user whose
@@ -43,6 +43,132 @@ Theorem C06_get_reveals_own le t sc u loc t' r :
   end.
 Proof. exact (get_reveals_own le t sc u loc t' r). Qed.
 
+(* ---------------------------------------------------------------------------------------------
+   User isolation (TowerIso.v).  proj v t = (gatekeeper entry of v, row of v in table users, v's rows of
+   table appointments, v's rows of table trackers).  is_api o = o is register / add_appointment /
+   get_appointment / get_subscription_info; actor o = the registering user, resp. the user the request's
+   signature recovers to (None when it recovers to nothing). *)
+
+Theorem C06_proj_def v t :
+  proj v t = mk_uview (aget (gk_users t) v) (aget (db_users t) v)
+                      (filter (fun a => N.eqb (a_user a) v) (db_apps t)) (filter (fun k => N.eqb (t_user k) v) (db_trks t)).
+Proof. reflexivity. Qed.
+
+(* isolation: whatever anyone but v does through the API - another user, an unregistered key, an
+   unauthenticated party - v's subscription, slots, appointments and trackers are unchanged, whether the
+   handler answers or aborts, including the trigger-in-cache path of add_appointment. *)
+Theorem C06_isolation le t o sc v :
+  is_api o = true -> actor o <> Some v -> proj v (fst (step le t o sc)) = proj v t.
+Proof. exact (isolation le t o sc v). Qed.
+
+Theorem C06_isolation_other_user le t o sc u v :
+  u <> v -> is_api o = true -> actor o = Some u -> proj v (fst (step le t o sc)) = proj v t.
+Proof. exact (isolation_other_user le t o sc u v). Qed.
+
+Theorem C06_isolation_unauthenticated le t o sc v :
+  is_api o = true -> actor o = None -> proj v (fst (step le t o sc)) = proj v t.
+Proof. exact (isolation_unauthenticated le t o sc v). Qed.
+
+Theorem C06_isolation_unregistered le t o sc w v :
+  is_api o = true -> actor o = Some w -> gk_get t w = None -> gk_get t v <> None ->
+  proj v (fst (step le t o sc)) = proj v t.
+Proof. exact (isolation_unregistered le t o sc w v). Qed.
+
+(* same locator, two users: two rows, two independent lifecycles *)
+Theorem C06_same_locator_independent le t o sc u v loc :
+  u <> v -> is_api o = true -> actor o = Some u ->
+  find_app (db_apps (fst (step le t o sc))) (loc, v) = find_app (db_apps t) (loc, v) /\
+  find_trk (db_trks (fst (step le t o sc))) (loc, v) = find_trk (db_trks t) (loc, v).
+Proof. exact (same_locator_independent le t o sc u v loc). Qed.
+
+(* non-interference: the output (reply or abort site) of an API operation of u, and what becomes of u's
+   projection and of the chain-level components, is determined by u's projection, the chain-level
+   components (cfg, gatekeeper / watcher / carrier heights, locator cache, responder tx index, carrier memo)
+   and the node's answers.  Nothing of any other user is revealed. *)
+Theorem C06_chain_level_components t1 t2 :
+  chain_eq t1 t2 <->
+  cfg t1 = cfg t2 /\ gk_height t1 = gk_height t2 /\ w_height t1 = w_height t2 /\ w_cache t1 = w_cache t2 /\
+  r_index t1 = r_index t2 /\ car_height t1 = car_height t2 /\ car_memo t1 = car_memo t2.
+Proof. split; [intros [A B C D E F G]; auto 10|intros [A [B [C [D [E [F G]]]]]]; constructor; assumption]. Qed.
+
+Theorem C06_noninterference le t1 t2 o sc u :
+  is_api o = true -> actor o = Some u -> proj u t1 = proj u t2 /\ chain_eq t1 t2 ->
+  snd (step le t1 o sc) = snd (step le t2 o sc) /\
+  (proj u (fst (step le t1 o sc)) = proj u (fst (step le t2 o sc)) /\ chain_eq (fst (step le t1 o sc)) (fst (step le t2 o sc))).
+Proof. exact (noninterference le t1 t2 o sc u). Qed.
+
+Theorem C06_unauthenticated_reply le t1 t2 o sc :
+  is_api o = true -> actor o = None -> snd (step le t1 o sc) = snd (step le t2 o sc).
+Proof. exact (unauthenticated_reply le t1 t2 o sc). Qed.
+
+(* the add_appointment reply itself needs even less: u's projection and two heights (not the node, not the
+   caches) *)
+Theorem C06_add_reply_depends le t1 t2 sc1 sc2 u loc b delay sig s1 s2 r1 r2 :
+  proj u t1 = proj u t2 /\ gk_height t1 = gk_height t2 /\ w_height t1 = w_height t2 ->
+  step le t1 (OAdd (Some u) loc b delay sig) sc1 = (s1, OAddRes r1) ->
+  step le t2 (OAdd (Some u) loc b delay sig) sc2 = (s2, OAddRes r2) -> r1 = r2.
+Proof. exact (add_reply_depends le t1 t2 sc1 sc2 u loc b delay sig s1 s2 r1 r2). Qed.
+
+(* Non-vacuity on a concrete reachable tower (iso_tower: users 1 and 2 both hold locator 50, user 2 has a
+   tracker for 60 whose dispute is still in the locator cache): user 1 replaces its (50,1), then sends a
+   late appointment for 60 (trigger in cache: a tracker (60,1) is created, RPCs are sent), then a late
+   garbage one (dropped).  Each changes user 1's own projection; user 2's is untouched (by the theorem). *)
+Example C06_iso_tower_reachable :
+  exists t, iso_tower = Some t /\
+    find_app (db_apps t) (50, 1) <> None /\ find_app (db_apps t) (50, 2) <> None /\
+    find_trk (db_trks t) (60, 2) <> None /\ ti_get (w_cache t) 60 = Some 60.
+Proof. destruct iso_tower as [t|] eqn:E; [|vm_compute in E; discriminate]. exists t. split; [reflexivity|].
+  vm_compute in E. inversion E. subst t. vm_compute. repeat split; discriminate. Qed.
+
+Example C06_isolation_example :
+  exists t, iso_tower = Some t /\
+    (* the update of (50,1) *)
+    proj 1 (fst (step true t iso_update [])) <> proj 1 t /\
+    proj 2 (fst (step true t iso_update [])) = proj 2 t /\
+    (* the late appointment: triggered straight away *)
+    find_trk (db_trks (fst (step true t iso_late iso_late_script))) (60, 1) <> None /\
+    rpc_log (fst (step true t iso_late iso_late_script)) <> [] /\
+    proj 2 (fst (step true t iso_late iso_late_script)) = proj 2 t /\
+    (* the late garbage appointment: charged and dropped *)
+    proj 1 (fst (step true t iso_drop [])) <> proj 1 t /\
+    find_app (db_apps (fst (step true t iso_drop []))) (60, 1) = None /\
+    proj 2 (fst (step true t iso_drop [])) = proj 2 t /\
+    (* (60,2), same locator as the dropped one, is still there with its tracker *)
+    find_app (db_apps (fst (step true t iso_drop []))) (60, 2) <> None /\
+    find_trk (db_trks (fst (step true t iso_drop []))) (60, 2) <> None.
+Proof.
+  destruct iso_tower as [t|] eqn:E; [|vm_compute in E; discriminate]. exists t. split; [reflexivity|].
+  assert (I2 : forall o sc, is_api o = true -> actor o = Some 1 -> proj 2 (fst (step true t o sc)) = proj 2 t).
+  { intros o sc Ha Hb. apply (isolation_other_user true t o sc 1 2); [discriminate|exact Ha|exact Hb]. }
+  split; [vm_compute in E; inversion E; subst t; vm_compute; discriminate|].
+  split; [apply I2; reflexivity|].
+  split; [vm_compute in E; inversion E; subst t; vm_compute; discriminate|].
+  split; [vm_compute in E; inversion E; subst t; vm_compute; discriminate|].
+  split; [apply I2; reflexivity|].
+  split; [vm_compute in E; inversion E; subst t; vm_compute; discriminate|].
+  split; [vm_compute in E; inversion E; subst t; vm_compute; reflexivity|].
+  split; [apply I2; reflexivity|].
+  destruct (same_locator_independent true t iso_drop [] 1 2 60) as [Ha Hk]; [discriminate|reflexivity|reflexivity|].
+  rewrite Ha, Hk. vm_compute in E; inversion E; subst t; vm_compute. split; discriminate.
+Qed.
+
+(* non-interference is not vacuous either: a tower where user 2 never existed (different tables, different
+   history) that agrees with iso_tower on user 1's projection and the chain level answers user 1 the same *)
+Example C06_noninterference_example :
+  exists t1 t2, iso_tower = Some t1 /\ iso_tower_alone = Some t2 /\
+    db_apps t1 <> db_apps t2 /\ proj 1 t1 = proj 1 t2 /\ chain_eq t1 t2 /\
+    forall o sc, is_api o = true -> actor o = Some 1 -> snd (step true t1 o sc) = snd (step true t2 o sc).
+Proof.
+  destruct iso_tower as [t1|] eqn:E1; [|vm_compute in E1; discriminate].
+  destruct iso_tower_alone as [t2|] eqn:E2; [|vm_compute in E2; discriminate].
+  exists t1, t2. split; [reflexivity|]. split; [reflexivity|].
+  assert (Hd : db_apps t1 <> db_apps t2) by (vm_compute in E1, E2; inversion E1; inversion E2; subst; vm_compute; discriminate).
+  assert (Hp : proj 1 t1 = proj 1 t2) by (vm_compute in E1, E2; inversion E1; inversion E2; subst; vm_compute; reflexivity).
+  assert (Hc : chain_eq t1 t2) by (vm_compute in E1, E2; inversion E1; inversion E2; subst; constructor; vm_compute; reflexivity).
+  split; [exact Hd|]. split; [exact Hp|]. split; [exact Hc|].
+  intros o sc Ha Hb. exact (proj1 (noninterference true t1 t2 o sc 1 Ha Hb (conj Hp Hc))).
+Qed.
+
 Print Assumptions C06_add_success_authentic.
 Print Assumptions C06_add_refused_unchanged.
 Print Assumptions C06_get_success_authentic.
@@ -50,3 +176,16 @@ Print Assumptions C06_getsub_success_authentic.
 Print Assumptions C06_get_unchanged.
 Print Assumptions C06_getsub_unchanged.
 Print Assumptions C06_get_reveals_own.
+Print Assumptions C06_proj_def.
+Print Assumptions C06_isolation.
+Print Assumptions C06_isolation_other_user.
+Print Assumptions C06_isolation_unauthenticated.
+Print Assumptions C06_isolation_unregistered.
+Print Assumptions C06_same_locator_independent.
+Print Assumptions C06_chain_level_components.
+Print Assumptions C06_noninterference.
+Print Assumptions C06_unauthenticated_reply.
+Print Assumptions C06_add_reply_depends.
+Print Assumptions C06_iso_tower_reachable.
+Print Assumptions C06_isolation_example.
+Print Assumptions C06_noninterference_example.
